@@ -20,6 +20,9 @@ import (
 	"errors"
 	"fmt"
 	"io"
+	"reflect"
+
+	"google.golang.org/protobuf/proto"
 )
 
 // flagEnvelopeCompressed indicates that the data is compressed. It has the
@@ -62,6 +65,18 @@ func isEndOfBody(err error) bool {
 	}
 	_, coded := asError(err)
 	return coded && errors.Is(err, io.EOF)
+}
+
+// resetMessage sets the message a caller handed to Receive to its zero value,
+// which is what unmarshalling an empty payload amounts to in every codec.
+func resetMessage(message any) {
+	if protoMessage, ok := message.(proto.Message); ok {
+		proto.Reset(protoMessage)
+		return
+	}
+	if value := reflect.ValueOf(message); value.Kind() == reflect.Ptr && !value.IsNil() {
+		value.Elem().Set(reflect.Zero(value.Elem().Type()))
+	}
 }
 
 func newSpecialEnvelopeError() *Error {
@@ -173,7 +188,10 @@ func (r *envelopeReader) Unmarshal(message any) *Error {
 		(env.Flags == 0 || env.Flags == flagEnvelopeCompressed) &&
 		env.Data.Len() == 0:
 		// This is a standard message (because none of the top 7 bits are set) and
-		// there's no data, so the zero value of the message is correct.
+		// there's no data, so the zero value of the message is correct - which
+		// the target need not hold: a caller may receive into a message that
+		// held the previous one.
+		resetMessage(message)
 		return nil
 	case err != nil && errors.Is(err, io.EOF):
 		// The stream has ended. Propagate the EOF to the caller.
